@@ -6,7 +6,8 @@ from typing import List, Optional
 from .. import terms as tm
 from ..effects import Summaries
 from ..interp import Interp
-from ..lib import fmt, fuse_elems, is_call_to, per_element, sweep
+from ..lib import fmt, fuse_elems, indirect_calls, is_call_to, per_element, \
+    sweep
 from ..terms import T, const
 
 EXPLANATION = """
@@ -240,7 +241,9 @@ def check(ctx):
                    f"prepare_axis({m}): {axis}-axis label is {fmt(lab)} — "
                    f"the data on that axis is coordinate {letter} in the "
                    f"configured length unit",
-                   key=f"C20.1:label:{m}:{axis}")
+                   key=f"C20.1:label:{m}:{axis}",
+                   # no label seen, but calls through a table of setters
+                   evidence=lab is not None or not indirect_calls(r))
         if len(m) == 2 and "z" in labels and \
                 _label_texts(prog, f_ax, pmq, m, "z") == []:
             del labels["z"]        # unreachable once the indices are known
